@@ -125,6 +125,19 @@ impl<'a> NumberPartsFmt<'a> {
                 'u' => {
                     if let Some(ref unit) = parts.raw_unit {
                         if unit.is_dimensionless() {
+                            // No unit to show, but the constant factor
+                            // of a conversion target still is.
+                            if let Some(ref f) = parts.factor {
+                                tokens.push(Span::plain("* "));
+                                tokens.push(Span::number(f));
+                            }
+                            if let Some(ref d) = parts.divfactor {
+                                if parts.factor.is_some() {
+                                    tokens.push(Span::plain(" "));
+                                }
+                                tokens.push(Span::plain("/ "));
+                                tokens.push(Span::number(d));
+                            }
                             continue;
                         }
                         let mut frac = vec![];
